@@ -1,6 +1,7 @@
 package main
 
 import (
+	"go/types"
 	"fmt"
 	"go/token"
 	"strings"
@@ -321,6 +322,65 @@ func ruleC13For(c *Ctx, sub *ssa.Function, do, rr, pm *ssa.Call, first bool) {
 					}
 				}
 			}
+		}
+		// (the same through a local the context was put into, also when a function literal started by Submit uses it)
+		if okU {
+			var walk func(fn *ssa.Function, site ssa.Instruction)
+			walk = func(fn *ssa.Function, site ssa.Instruction) {
+				for _, in2 := range ownInstrs(fn) {
+					switch u := in2.(type) {
+					case ssa.CallInstruction:
+						vals := append([]ssa.Value{}, u.Common().Args...)
+						if u.Common().IsInvoke() {
+							vals = append(vals, u.Common().Value)
+						}
+						for _, a := range vals {
+							if a == ssa.Value(ld) || !types.Identical(a.Type(), ld.Type()) {
+								continue
+							}
+							// a local that holds exactly this load (a captured local lives in a cell)
+							ad, isLd := derefLoad(a)
+							if !isLd {
+								continue
+							}
+							var cell *ssa.Alloc
+							switch x := ad.(type) {
+							case *ssa.Alloc:
+								cell = x
+							case *ssa.FreeVar:
+								cell = freeVarCell(x)
+							}
+							if cell == nil {
+								continue
+							}
+							sts := storesToCell(cell)
+							only := len(sts) > 0
+							for _, st := range sts {
+								only = only && st.Val == ssa.Value(ld)
+							}
+							if !only {
+								continue
+							}
+							at := site
+							if at == nil {
+								at = in2
+							}
+							if !guardedBy(at, nil, noOpCtx) {
+								okU, whyU = false, "Runtime.Context, kept in a local, is used by "+calleeName(u.Common())+" ("+c.P.InstrPos(in2)+") although the operation has its own context"
+							}
+						}
+					case *ssa.MakeClosure:
+						if g, isF := u.Fn.(*ssa.Function); isF {
+							at := site
+							if at == nil {
+								at = in2
+							}
+							walk(g, at)
+						}
+					}
+				}
+			}
+			walk(sub, nil)
 		}
 		c.obI("R13.3", ld, "operation-context-first", okU, "the transport-wide context is used (as parent, or asked for its state) only when the operation carries none: a per-operation context takes precedence, and the state of the transport-wide context cannot fail or bound a call that brought its own", whyU)
 	}
